@@ -894,6 +894,12 @@ func execSched(t *testing.T, pl Plan, seed uint64, o *Outcome) {
 		o.Harness("second world build failed")
 		return
 	}
+	type heldRes struct {
+		name   string
+		render func() string
+		first  string
+	}
+	var heldB []heldRes
 	for _, gi := range order {
 		g, i := gi[0], gi[1]
 		name := p.Ops[g][i]
@@ -903,6 +909,7 @@ func execSched(t *testing.T, pl Plan, seed uint64, o *Outcome) {
 		after := priv.snapshot()
 		if fB != nil {
 			resB = safely(fB)
+			heldB = append(heldB, heldRes{name, fB, resB})
 		}
 		o.Eval("C20")
 		if before != after {
@@ -931,6 +938,15 @@ func execSched(t *testing.T, pl Plan, seed uint64, o *Outcome) {
 			o.Violate("C20", "result-differs", fmt.Sprintf("operation %s: concurrent=%.60q sequential=%.60q alone=%.60q", name, resA, resB, resSolo), map[string]string{"op": strings.SplitN(name, ":", 3)[1]})
 		}
 		o.Logf("op g%d %s -> %016x", g, name, fnv64(resSolo))
+	}
+	// what an operation returned belongs to the caller: rendered again after all later operations
+	// it must still read the same
+	for _, h := range heldB {
+		o.Eval("C20")
+		if again := safely(h.render); again != h.first {
+			o.Violate("C20", "result-changed-later", fmt.Sprintf("the result of %s changed after later read-only operations: %.60q -> %.60q", h.name, h.first, again), map[string]string{"op": strings.SplitN(h.name, ":", 3)[1]})
+			break
+		}
 	}
 	// signature: multiset of operation kinds per goroutine, interleaving, provenance, key-order class
 	var sig []string
@@ -1057,6 +1073,9 @@ func genSched(r *Rand, g GenCfg) Plan {
 	p.EncKey[0] |= 1
 	if r.Chance(0.3) {
 		p.Inv.Meta = append(p.Inv.Meta, MetaSpec{Key: "sec", Secret: []byte("hidden value"), EncKey: p.EncKey, AsStr: true})
+		// a second entry of another length, stored as bytes: what one read returned must still be
+		// there after the other entry has been read
+		p.Inv.Meta = append(p.Inv.Meta, MetaSpec{Key: "sec2", Secret: []byte("ANOTHER, LONGER HIDDEN VALUE 0123456789"), EncKey: p.EncKey, AsStr: false})
 	}
 	// operations
 	targets := []string{"inv", "inv", "inv"}
@@ -1099,10 +1118,24 @@ func genSched(r *Rand, g GenCfg) Plan {
 			case "MetaGet":
 				name += ":" + Pick(r, keyPool)
 			case "MetaGetEncrypted":
-				name += ":sec"
+				name += ":" + Pick(r, []string{"sec", "sec2", "sec2"})
 			}
 			p.Ops[g] = append(p.Ops[g], name)
 		}
+	}
+	if len(p.Inv.Meta) > 0 && p.Inv.Meta[len(p.Inv.Meta)-1].Key == "sec2" && r.Chance(0.7) {
+		// two reads of DIFFERENT encrypted entries, on one goroutine or on two
+		g1, g2 := r.Intn(k), r.Intn(k)
+		first, second := "inv:MetaGetEncrypted:sec2", "inv:MetaGetEncrypted:sec"
+		if r.Chance(0.3) {
+			first, second = second, first
+		}
+		p.Ops[g1] = append([]string{first}, p.Ops[g1]...)
+		i := r.Intn(len(p.Ops[g2]) + 1)
+		if g1 == g2 && i == 0 {
+			i = 1
+		}
+		p.Ops[g2] = append(p.Ops[g2][:i:i], append([]string{second}, p.Ops[g2][i:]...)...)
 	}
 	// interleaving
 	var slots []int
